@@ -332,14 +332,20 @@ def path_condition(fa: FA, start: int, targets: Set[int], within: Set[int], barr
         if n in barrier or n not in within:
             return
         if n in seen:
+            if cfg.nodes[n].kind == "next":
+                return  # back at the head of a loop that was entered for the target: this iteration did not reach it
             raise GiveUp("a cycle lies on the way")
         nd = cfg.nodes[n]
         seen = seen | {n}
         if nd.kind == "next":
             out = cfg.out_edge(n, False)
-            if any(t_ in cfg.nodes_inside(nd.owner.body) for t_ in targets):
-                raise GiveUp("the target lies inside a loop on the way")
             env2 = {k: v for k, v in env.items() if k not in assigned_in(nd.owner)}
+            if any(t_ in cfg.nodes_inside(nd.owner.body) for t_ in targets):
+                # the target lies in this loop: the condition of reaching it within one (any) iteration
+                inner = cfg.out_edge(n, True)
+                if inner is not None:
+                    walk(inner, env2, conds, seen)
+                return
             if out is not None:
                 walk(out, env2, conds, seen)
             return
